@@ -5,6 +5,10 @@
 //! All values are heap allocated (64 bytes > inline capacity 23); the handles of one program
 //! share one buffer (related by `clone` / `slice`). Each thread owns its handle(s), performs
 //! its actions, checks the content IT must observe, and the main thread joins everybody.
+//! The "by reference" programs instead share ONE handle between scoped threads (`&HipByt` is
+//! usable from several threads since Arc-backed values are `Sync`): the threads `clone` /
+//! `slice` through the shared reference while the share count is 1, the situation where a
+//! non-atomic "sole owner" shortcut in the increment loses a count.
 //!
 //! `miriprog list` prints `index<TAB>quick|thorough<TAB>description`, `miriprog <i>` runs one.
 
@@ -83,6 +87,96 @@ fn t_clone_read(h: H) {
     assert_eq!(read(&c), N * b'a' as usize);
 }
 
+/// Rounds of the by-reference programs (each round is a fresh buffer: more chances per Miri run
+/// for the two increments to overlap).
+const ROUNDS: usize = 6;
+
+/// Two scoped threads clone through one shared `&h` (share count 1); the clones are dropped one
+/// by one while `h` is read; finally `h` must be the sole owner again: `into_vec` is `Ok`.
+fn byref_clone_into_vec() {
+    for _ in 0..ROUNDS {
+        let h = base();
+        let (ca, cb) = thread::scope(|s| {
+            let a = s.spawn(|| h.clone());
+            let b = s.spawn(|| h.clone());
+            (a.join().unwrap(), b.join().unwrap())
+        });
+        all(&ca, N, b'a', b'a');
+        drop(ca);
+        assert_eq!(read(&h), N * b'a' as usize);
+        all(&cb, N, b'a', b'a');
+        drop(cb);
+        assert_eq!(read(&h), N * b'a' as usize);
+        let mut v = h.into_vec().expect("sole owner after both clones are gone");
+        assert_eq!(v.len(), N);
+        v[0] = b'Z';
+        assert!(v[1..].iter().all(|&b| b == b'a'));
+    }
+}
+
+/// Same, but one clone stays alive while `h` is written through `to_mut_slice` (which must
+/// copy, the buffer being shared): the surviving clone must keep its content.
+fn byref_clone_to_mut() {
+    for _ in 0..ROUNDS {
+        let mut h = base();
+        let (ca, cb) = thread::scope(|s| {
+            let a = s.spawn(|| h.clone());
+            let b = s.spawn(|| h.clone());
+            (a.join().unwrap(), b.join().unwrap())
+        });
+        drop(cb);
+        h.to_mut_slice()[0] = b'X';
+        all(&h, N, b'X', b'a');
+        all(&ca, N, b'a', b'a');
+        drop(h);
+        all(&ca, N, b'a', b'a');
+    }
+}
+
+/// The scoped threads clone through `&h`, read and DROP their clone concurrently while the main
+/// thread keeps reading `h`; afterwards `h` is the sole owner: `as_mut_slice` is `Some`.
+fn byref_clone_drop_in_threads() {
+    for _ in 0..ROUNDS {
+        let mut h = base();
+        thread::scope(|s| {
+            for _ in 0..2 {
+                s.spawn(|| {
+                    let c = h.clone();
+                    assert_eq!(read(&c), N * b'a' as usize);
+                    drop(c);
+                });
+            }
+            assert_eq!(read(&h), N * b'a' as usize);
+        });
+        assert_eq!(read(&h), N * b'a' as usize);
+        let s = h.as_mut_slice().expect("sole owner after the scope");
+        s[0] = b'Y';
+        all(&h, N, b'Y', b'a');
+    }
+}
+
+/// Slices taken through the shared reference (a slice of an allocated value shares the buffer
+/// and bumps the same count), then the parent is mutated: the slices must keep their content.
+fn byref_slice() {
+    for _ in 0..ROUNDS {
+        let mut h = base();
+        let (sa, sb) = thread::scope(|s| {
+            let a = s.spawn(|| h.slice(8..48));
+            let b = s.spawn(|| h.slice(0..32));
+            (a.join().unwrap(), b.join().unwrap())
+        });
+        assert!(sa.is_allocated() && sb.is_allocated());
+        all(&sa, 40, b'a', b'a');
+        drop(sa);
+        assert_eq!(read(&h), N * b'a' as usize);
+        h.make_ascii_uppercase();
+        all(&h, N, b'A', b'A');
+        all(&sb, 32, b'a', b'a');
+        drop(h);
+        all(&sb, 32, b'a', b'a');
+    }
+}
+
 struct Prog {
     quick: bool,
     desc: &'static str,
@@ -155,6 +249,10 @@ const PROGS: &[Prog] = &[
     Prog { quick: false, desc: "T1: push_slice || T2: push_slice", run: || par2(t_push, t_push) },
     Prog { quick: false, desc: "T1: as_mut_slice write-if-Some || T2: drop || T3: make_ascii_uppercase", run: || par3(t_as_mut, t_drop, t_upper) },
     Prog { quick: true, desc: "T1: read all bytes, drop || T2: as_mut_slice write-if-Some", run: || par2(t_read_drop, t_as_mut) },
+    Prog { quick: true, desc: "by reference: scope { T1: (&h).clone() || T2: (&h).clone() }; drop clones one by one reading h; h.into_vec() must be Ok", run: byref_clone_into_vec },
+    Prog { quick: true, desc: "by reference: scope { T1,T2: (&h).clone(), read, drop || main: read h }; h.as_mut_slice() must be Some", run: byref_clone_drop_in_threads },
+    Prog { quick: false, desc: "by reference: scope { T1: (&h).clone() || T2: (&h).clone() }; drop one; h.to_mut_slice()[0]=x must not touch the other clone", run: byref_clone_to_mut },
+    Prog { quick: false, desc: "by reference: scope { T1: (&h).slice(8..48) || T2: (&h).slice(0..32) }; mutate the parent; slices keep their content", run: byref_slice },
 ];
 
 fn main() {
